@@ -205,6 +205,43 @@ def exhaustive_anomaly_sets(coll, point, n, c_alpha, c_betas, p_alpha, p_betas, 
 # --------------------------------------------------------------------------------------
 
 
+def _greedy_outcomes(n_items, scores, threshold, choices_of, kill, cap, tol):
+    """Set-valued greedy selection: deterministic stretches are followed in a loop (any number of selections), only
+    genuine ties branch (depth-first over an explicit stack, at most `cap` branch nodes)."""
+    outcomes = set()
+    complete = True
+    seen = set()
+    nodes = 0
+    stack = [(np.ones(n_items, dtype=bool), ())]
+    while stack:
+        alive, chosen = stack.pop()
+        chosen = list(chosen)
+        while True:
+            idx = np.flatnonzero(alive & (scores > threshold))
+            if idx.size == 0:
+                outcomes.add(frozenset(chosen))
+                break
+            top = scores[idx].max()
+            cands = idx[scores[idx] >= top - tol]
+            options = choices_of(cands)
+            if len(options) == 1:
+                chosen.append(options[0])
+                alive = alive & ~kill(options[0])
+                continue
+            nodes += 1
+            if nodes > cap:
+                complete = False
+                break
+            key = (alive.tobytes(), tuple(sorted(chosen)))
+            if key in seen:
+                break
+            seen.add(key)
+            for c in options:
+                stack.append((alive & ~kill(c), tuple(chosen) + (c,)))
+            break
+    return outcomes, complete
+
+
 def seeded_greedy_outcomes(starts, ends, scores, maximizers, threshold, cap=2000, tol=0.0):
     """All changepoint sets reachable by the greedy rule under any tie-break.
 
@@ -216,32 +253,9 @@ def seeded_greedy_outcomes(starts, ends, scores, maximizers, threshold, cap=2000
     ends = np.asarray(ends)
     scores = np.asarray(scores, dtype=float)
     maximizers = np.asarray(maximizers)
-    outcomes = set()
-    nodes = [0]
-    complete = [True]
-    seen = set()
-
-    def rec(alive, chosen):
-        nodes[0] += 1
-        if nodes[0] > cap:
-            complete[0] = False
-            return
-        key = (alive.tobytes(), chosen)
-        if key in seen:
-            return
-        seen.add(key)
-        idx = np.flatnonzero(alive & (scores > threshold))
-        if idx.size == 0:
-            outcomes.add(frozenset(chosen))
-            return
-        top = scores[idx].max()
-        cands = idx[scores[idx] >= top - tol]
-        for c in sorted({int(maximizers[i]) for i in cands}):
-            new_alive = alive & ~((starts <= c) & (c < ends))
-            rec(new_alive, tuple(sorted(chosen + (c,))))
-
-    rec(np.ones(len(starts), dtype=bool), ())
-    return outcomes, complete[0]
+    return _greedy_outcomes(len(starts), scores, threshold,
+                            lambda cands: sorted({int(maximizers[i]) for i in cands}),
+                            lambda c: (starts <= c) & (c < ends), cap, tol)
 
 
 def circular_greedy_outcomes(starts, ends, scores, a_starts, a_ends, threshold, cap=2000, tol=0.0):
@@ -251,32 +265,9 @@ def circular_greedy_outcomes(starts, ends, scores, a_starts, a_ends, threshold, 
     scores = np.asarray(scores, dtype=float)
     a_starts = np.asarray(a_starts)
     a_ends = np.asarray(a_ends)
-    outcomes = set()
-    nodes = [0]
-    complete = [True]
-    seen = set()
-
-    def rec(alive, chosen):
-        nodes[0] += 1
-        if nodes[0] > cap:
-            complete[0] = False
-            return
-        key = (alive.tobytes(), chosen)
-        if key in seen:
-            return
-        seen.add(key)
-        idx = np.flatnonzero(alive & (scores > threshold))
-        if idx.size == 0:
-            outcomes.add(frozenset(chosen))
-            return
-        top = scores[idx].max()
-        cands = idx[scores[idx] >= top - tol]
-        for a, b in sorted({(int(a_starts[i]), int(a_ends[i])) for i in cands}):
-            new_alive = alive & ~((b > starts) & (a < ends))
-            rec(new_alive, tuple(sorted(chosen + ((a, b),))))
-
-    rec(np.ones(len(starts), dtype=bool), ())
-    return outcomes, complete[0]
+    return _greedy_outcomes(len(starts), scores, threshold,
+                            lambda cands: sorted({(int(a_starts[i]), int(a_ends[i])) for i in cands}),
+                            lambda ab: (ab[1] > starts) & (ab[0] < ends), cap, tol)
 
 
 # --------------------------------------------------------------------------------------
